@@ -785,7 +785,7 @@ Definition example_file (fuel : nat) (h : hirspec) (cfg : config) (o : hop) : re
   do cid <- ident (client_name (c_name cfg));
   do imp3 <- (if use_required then
                 let fname := op_file_name (o_name o) in
-                let sname := required_struct_name (o_name o) in
+                do sname <- sanitize_struct (required_struct_name (o_name o));
                 if path_segment_ok fname && path_segment_ok sname
                 then Ok (t "use" ++ ts pkg ++ t ":: request ::" ++ ts fname ++ t "::" ++ ts sname ++ t ";")
                 else Err EParse
